@@ -3,7 +3,7 @@
    Layer 1 (this file): for EVERY guide tree and EVERY well-formed raw path.  The premises
    (well-formed raw paths, valid task list) are evaluated on every path and tree the
    implementation produces during the correspondence runs (monitored premises, DESIGN C01). *)
-From KV Require Import Base Weave WeaveProofs WeaveCheck PathProofs AssemblyProofs.
+From KV Require Import Base Params Sort Weave WeaveProofs WeaveCheck PathProofs AssemblyProofs Api RunIntegrityProofs.
 Local Open Scope nat_scope.
 
 (* make_linear_sequence: deleting the gap characters of the row built from any gap vector gives
@@ -41,6 +41,41 @@ Theorem C01_assembly_integrity : forall seqs,
                (forall j, j < w -> exists i, i < length seqs /\ nth j (row_of seqs final i) dash <> dash)).
 Proof. intros seqs H. exact (assembly_integrity seqs H). Qed.
 Print Assumptions C01_assembly_integrity.
+
+(* The whole run (kalign_run / kalign as modelled in Api.v: essential check, canonical sort, conversion, numeric core,
+   linearisation, rank sort).  WHATEVER the numeric core returns - as long as it is one vector of len+1 gap counters
+   per sequence - the result has one row per non-empty input sequence, in input order, under the input name, and
+   deleting the gap characters of a row gives back that sequence's residues.  (Equal row lengths and the absence of
+   all-gap columns are the business of C01_assembly_integrity.) *)
+Theorem C01_run_reproduces_every_sequence : forall core,
+  (forall bt p t a, length t = length a -> Forall2 (fun (g : list nat) (s : list Z) => length g = S (length s)) (core bt p t a) a) ->
+  forall bt ty gpo gpe tgpe recs out,
+  Forall (fun nr => Forall (fun c => c <> dash) (snd nr)) recs ->
+  kalign_run_model core bt ty gpo gpe tgpe recs = Some out ->
+  let kept := filter (fun nr : list Z * list Z => match snd nr with [] => false | _ => true end) recs in
+  map fst out = map fst kept /\ map (fun o => degap (snd o)) out = map snd kept /\ 2 <= length out.
+Proof. intros core Hc bt ty gpo gpe tgpe recs out Hd H. exact (run_model_integrity core Hc bt ty gpo gpe tgpe recs out Hd H). Qed.
+Print Assumptions C01_run_reproduces_every_sequence.
+
+(* the premise on the core is satisfiable, and it is what the weave layer maintains: gap vectors start as len+1 zeros
+   and update_gaps maps over the old vector, so their length never changes *)
+Example C01_core_premise_nonvacuous :
+  (forall (bt : Z) (p : params) (t a : list (list Z)), length t = length a ->
+     Forall2 (fun (g : list nat) (s : list Z) => length g = S (length s)) ((fun (_ : Z) (_ : params) (_ a0 : list (list Z)) => map (fun s => repeat 0 (S (length s))) a0) bt p t a) a) /\
+  (forall gis ng, length (update_gaps gis ng) = length gis).
+Proof.
+  split.
+  - intros _ _ _ a _. induction a as [|s a IH]; cbn [map]; constructor; [apply repeat_length|exact IH].
+  - induction gis as [|g gis IH]; intros ng; [reflexivity|]. cbn [update_gaps length]. f_equal. apply IH.
+Qed.
+
+(* the mechanism behind it: sorting by the recorded rank undoes any reordering *)
+Theorem C01_rank_restores_input_order : forall kept aligned sorted,
+  Sorted.StronglySorted (fun x y => (r_rank x < r_rank y)%Z) kept ->
+  Permutation.Permutation sorted kept -> Forall2 came_from aligned sorted ->
+  Forall2 came_from (sort_rank aligned) kept.
+Proof. exact rank_restores_order. Qed.
+Print Assumptions C01_rank_restores_input_order.
 
 (* Non-vacuity: an observed run (see Properties_C10) meets the premises, and a well-formed raw
    path with leading/trailing/internal gaps exists. *)
